@@ -27,9 +27,14 @@ MANIFEST = {
             "Environment level: nested or flattened, every observation of an episode is a member of the space observation_space "
             "declares during THAT episode, the space does not change within an episode, and a constant schedule declares one space "
             "(C02_env_*); flattening a member gives a 0/1 vector whose length is a function of the space only. "
-            "PARTIAL (explicit decidable hypotheses, counterexamples proved): ACL-carrying components exclude num_rules above the "
-            "ACL's slots (F-6, open); flattened results exclude spaces with an empty sub-dictionary, which gymnasium refuses "
-            "(F-C02-2, open). Tie: enum members, Discrete sizes, clamps, status codes, default literals, threshold categorisers "
+            "F-6 and F-C02-2 are repaired, so no partial hypothesis is left on the ACL slot count, and the flatten guard of ProxyAgent "
+            "(modelled, EpisodeCfg.accepts) keeps out the spaces gymnasium cannot flatten. The flattened vector is also modelled in "
+            "gymnasium's OWN key order (Model/ObsFlat: Dict sorts a complete dict of comparable keys, keeps insertion order for keys "
+            "added afterwards - only NICObservation.space does that, regenerated fact - and for mixed str/int keys): membership, "
+            "flattenability and length are invariant under that re-ordering (C02_contains_gym, C02_flattenable_gym, C02_flatDim_gym) "
+            "and the vector an RL agent receives is a 0/1 vector of the declared length (C02_gym_flatten_length). Construction "
+            "includes the constructors' threshold validation where it happens (before truncation; RawObs.buildV, translated "
+            "_validate_thresholds). Tie: enum members, Discrete sizes, clamps, status codes, default literals, threshold categorisers "
             "(Gen/ObsEnums, Gen/ObsTables), the ORDER of events in every __init__ (pads/truncations precede every read by "
             "default_observation), no in-place write through default_observation / cached_obs in any observe, the exact bodies of "
             "PrimaiteGymEnv.agent / observation_space / action_space / _get_obs and no stored space attribute (Gen/ObsCfgTables; "
